@@ -134,6 +134,7 @@ func drawC03Script(t *rapid.T, c incrConf, trickleBatch bool) c03Script {
 		o.startInTx = rapid.IntRange(0, 2).Draw(t, "startInTx") == 0
 	}
 	o.selectInTx = !c.resume
+	o.noCkKeys = c.resume
 	trickle := trickleBatch && rapid.Bool().Draw(t, "trickle")
 	if trickle {
 		// no barriers (SELECT/MULTI/EXEC flush what is cached): only the ticker can flush a trickle
